@@ -1395,7 +1395,7 @@ VARIANTS = [
     Variant("import-put-above-the-def-line-of-a-decorated-definition", "FIRE", "fixes",
             "        first_lineno = min([node.lineno, *(x.lineno for x in getattr(node, \"decorator_list\", ()))])\n        # If it shares its first line with e.g. the docstring, it is better to go after it\n        lineno = first_lineno - 1 if first_lineno > last_skipped_lineno else node.end_lineno\n",
             "        lineno = node.lineno - 1 if node.lineno > last_skipped_lineno else node.end_lineno\n", "R3.13",
-            extra=[("fixes", "    new_source = \"\\n\".join(lines) + \"\\n\"\n    if not core.is_valid_python(new_source):\n        return source\n\n    return new_source\n", "    return \"\\n\".join(lines) + \"\\n\"\n")]),
+            extra=[("fixes", "    new_source = \"\".join(lines)\n    if not core.is_valid_python(new_source):\n        return source\n\n    return new_source\n", "    return \"\".join(lines)\n")]),
     Variant("import-put-above-the-def-line-but-result-validated", "SILENT", "fixes",
             "        first_lineno = min([node.lineno, *(x.lineno for x in getattr(node, \"decorator_list\", ()))])\n        # If it shares its first line with e.g. the docstring, it is better to go after it\n        lineno = first_lineno - 1 if first_lineno > last_skipped_lineno else node.end_lineno\n",
             "        lineno = node.lineno - 1 if node.lineno > last_skipped_lineno else node.end_lineno\n"),
@@ -1428,7 +1428,7 @@ VARIANTS = [
     Variant("import-insertion-line-from-line-prefixes", "FIRE", "fixes",
             '    lineno = len(lines)\n    last_skipped_lineno = 0\n    for i, node in enumerate(core.parse(source).body):\n        is_docstring = i == 0 and core.match_template(node, ast.Expr(value=ast.Constant(value=str)))\n        is_future_import = isinstance(node, ast.ImportFrom) and node.module == "__future__"\n        if is_docstring or is_future_import:\n            last_skipped_lineno = node.end_lineno\n            continue\n\n        # The decorators of a definition stand above the line that node.lineno is\n        first_lineno = min([node.lineno, *(x.lineno for x in getattr(node, "decorator_list", ()))])\n        # If it shares its first line with e.g. the docstring, it is better to go after it\n        lineno = first_lineno - 1 if first_lineno > last_skipped_lineno else node.end_lineno\n        break\n    else:\n        lineno = last_skipped_lineno\n',
             '    lineno = next(i for i, line in enumerate(lines) if not line.startswith("#") and not line.startswith("from __future__ import"))\n', "R3.6",
-            extra=[("fixes", '    new_source = "\\n".join(lines) + "\\n"\n    if not core.is_valid_python(new_source):\n        return source\n\n    return new_source\n', "    return \"\\n\".join(lines) + \"\\n\"\n")]),
+            extra=[("fixes", '    new_source = "".join(lines)\n    if not core.is_valid_python(new_source):\n        return source\n\n    return new_source\n', "    return \"\".join(lines)\n")]),
     Variant("alter-code-actions-applied-top-down", "FIRE", "processing",
             "    for *_, action, _, value in sorted(actions, reverse=True):", "    for *_, action, _, value in sorted(actions):", "R3.5"),
     Variant("insertions-applied-top-down", "FIRE", "processing",
